@@ -28,6 +28,10 @@ type c09ReloginCase struct {
 	SpareCap int    `json:"spare_capacity"`
 	KeyBits  int    `json:"key_bits"`
 	Idx      int    `json:"idx"`
+	// SameConfig: both logins use ONE LoginConfig object whose account
+	// password the application changes in between (a retry after "password
+	// expired", a pooled configuration)
+	SameConfig bool `json:"same_config_object,omitempty"`
 }
 
 func c09Relogin(c *Ctx, cs c09ReloginCase) {
@@ -84,9 +88,15 @@ func c09Relogin(c *Ctx, cs c09ReloginCase) {
 			k.tr.Feed(lpPacketize(rnd, replies[n], "one-packet")...)
 		}
 	}
+	shared := lpConfig("sa", pws[0], true)
+	shared.RemoteServers = app
 	login := func(i int) (error, *rt.PanicInfo) {
 		cfg := lpConfig("sa", pws[i], true)
 		cfg.RemoteServers = app // the application's own list
+		if cs.SameConfig {
+			cfg = shared
+			cfg.DSN.Password = pws[i]
+		}
 		ctx, cancel := context.WithTimeout(k.ctx, 5*time.Second)
 		defer cancel()
 		var err error
@@ -163,6 +173,10 @@ func runC09Relogin(c *Ctx) {
 			cases = append(cases, c09ReloginCase{Leg: "relogin", Remotes: rem, SpareCap: spare, KeyBits: 2048, Idx: idx})
 			idx++
 		}
+	}
+	for _, rem := range []int{0, 2} {
+		cases = append(cases, c09ReloginCase{Leg: "relogin", Remotes: rem, SpareCap: 1, KeyBits: 2048, Idx: idx, SameConfig: true})
+		idx++
 	}
 	lpGetKey(2048)
 	c.R.Sample("relogin", cases[4])
